@@ -92,7 +92,7 @@ fn note_err(o: &Shared<Obs>, k: usize, call: &str, e: ErrInfo) {
     }
 }
 
-async fn server_app(net: Net, o: Shared<Obs>, sp: Spawner) {
+async fn server_app(net: Net, o: Shared<Obs>, sp: Spawner, careful: bool) {
     let mut b = h3::server::builder();
     b.send_grease(false).max_field_section_size(LIMIT);
     let mut conn: ServerConn = match b.build(net.conn(Side::Server)).await {
@@ -142,12 +142,19 @@ async fn server_app(net: Net, o: Shared<Obs>, sp: Spawner) {
                             Ok(None) => break,
                             Err(e) => {
                                 note_err(&o2, k, "recv_data", err_info(&e));
+                                if careful {
+                                    // an application that gives a request up says so instead of ending its answer without one
+                                    s.stop_stream(h3::error::Code::H3_REQUEST_CANCELLED);
+                                }
                                 return;
                             }
                         }
                     }
                     if let Err(e) = s.recv_trailers().await {
                         note_err(&o2, k, "recv_trailers", err_info(&e));
+                        if careful {
+                            s.stop_stream(h3::error::Code::H3_REQUEST_CANCELLED);
+                        }
                         return;
                     }
                     o2.borrow_mut().reqs[k].recv_done = true;
@@ -184,7 +191,7 @@ async fn server_app(net: Net, o: Shared<Obs>, sp: Spawner) {
     drop(conn);
 }
 
-async fn client_app(net: Net, reqs: Vec<Req>, o: Shared<Obs>, sp: Spawner, go: crate::simnet::exec::Signal) {
+async fn client_app(net: Net, reqs: Vec<Req>, o: Shared<Obs>, sp: Spawner, go: crate::simnet::exec::Signal, e2e: bool) {
     let mut b = h3::client::builder();
     b.send_grease(false).max_field_section_size(LIMIT);
     let Ok((conn, sr)): Result<(ClientConn, SendReq), _> = b.build(net.conn(Side::Client)).await else { return };
@@ -215,13 +222,26 @@ async fn client_app(net: Net, reqs: Vec<Req>, o: Shared<Obs>, sp: Spawner, go: c
             let body = body_of(k, r.body_len, false);
             let n = r.pieces.max(1);
             let mut ok = true;
-            for piece in body.chunks((body.len() / n).max(1)) {
+            for (pi, piece) in body.chunks((body.len() / n).max(1)).enumerate() {
+                if let (true, Fault::Reset { code, offset }) = (e2e, r.fault) {
+                    if pi >= offset {
+                        // the application cancels its own request and, as documented, still looks at the response
+                        s.stop_stream(h3::error::Code::from(code));
+                        ok = false;
+                        break;
+                    }
+                }
                 if let Err(e) = s.send_data(Bytes::copy_from_slice(piece)).await {
                     note_err(&o3, k, "send_data", err_info(&e));
                     let _ = s.finish().await;
                     ok = false;
                     break;
                 }
+            }
+            if let (true, true, Fault::Reset { code, .. }) = (e2e, ok, r.fault) {
+                // (an empty body, or a cancel point behind the last piece)
+                s.stop_stream(h3::error::Code::from(code));
+                ok = false;
             }
             if ok {
                 match s.finish().await {
@@ -345,9 +365,9 @@ pub fn run_scn(s: &Scn, merge: &mut Tape, sched: &mut Tape, ctx: &mut Ctx) -> Ve
     let sp = ex.spawner.clone();
     let go = crate::simnet::exec::Signal::new();
     if s.server {
-        ex.spawn("server", server_app(net.clone(), o.clone(), sp.clone()));
+        ex.spawn("server", server_app(net.clone(), o.clone(), sp.clone(), false));
     } else {
-        ex.spawn("client", client_app(net.clone(), s.reqs.clone(), o.clone(), sp.clone(), go.clone()));
+        ex.spawn("client", client_app(net.clone(), s.reqs.clone(), o.clone(), sp.clone(), go.clone(), false));
     }
     // per request op lists
     let mut lists: Vec<std::collections::VecDeque<PeerOp>> = Vec::new();
@@ -594,6 +614,129 @@ pub fn run_scn(s: &Scn, merge: &mut Tape, sched: &mut Tape, ctx: &mut Ctx) -> Ve
     Ok(())
 }
 
+
+// ------------------------------------------------------------------------------------------------
+// both ends h3: the client application cancels some of its own requests (RESET_STREAM from h3 to h3)
+
+struct QuietSignal {
+    go: crate::simnet::exec::Signal,
+    fired: bool,
+}
+impl crate::simnet::exec::Actor for QuietSignal {
+    fn ready(&mut self, quiet: bool) -> bool {
+        quiet && !self.fired
+    }
+    fn step(&mut self, _net: &Net, _sp: &Spawner) {
+        self.fired = true;
+        self.go.raise();
+    }
+}
+
+/// Both ends are h3 and neither application misuses the API: the client cancels request k with `stop_stream(code)` after
+/// `offset` body pieces and keeps waiting for a response (a server may answer early); the server application answers
+/// what it can read and gives a request up with `stop_stream` when it cannot. Whatever the schedule - the reset may reach
+/// the server before, inside or after the headers - the fault stays on that request: no connection error on either end,
+/// the other requests deliver exactly their own bytes, and a request sent afterwards is served.
+pub fn run_e2e(reqs: &[Req], style: Style, sched: &mut Tape, ctx: &mut Ctx) -> Verdict {
+    ctx.eval();
+    fastrand::seed(29);
+    let net = Net::new();
+    let so: Shared<Obs> = shared(Obs { reqs: vec![ReqObs::default(); reqs.len()], ..Default::default() });
+    let co: Shared<Obs> = shared(Obs { reqs: vec![ReqObs::default(); reqs.len()], ..Default::default() });
+    let mut ex = Exec::new();
+    let sp = ex.spawner.clone();
+    let go = crate::simnet::exec::Signal::new();
+    ex.spawn("server", server_app(net.clone(), so.clone(), sp.clone(), true));
+    ex.spawn("client", client_app(net.clone(), reqs.to_vec(), co.clone(), sp.clone(), go.clone(), true));
+    let mut actor = QuietSignal { go, fired: false };
+    let end = ex.run(&net, &mut actor, sched, style, 400_000);
+    let (sobs, cobs) = (so.borrow().clone(), co.borrow().clone());
+    let closes = (net.close_calls(Side::Client), net.close_calls(Side::Server));
+    let show = |o: &Obs| o.reqs.iter().map(|r| format!("accepted={} body={} recv_done={} send_done={} first_error={:?}", r.accepted, r.body.len(), r.recv_done, r.send_done, r.first_error)).collect::<Vec<_>>();
+    let case = || json!({"e2e": true, "reqs": reqs.iter().map(req_json).collect::<Vec<_>>(), "style": format!("{style:?}"), "client": show(&cobs), "server": show(&sobs), "client_driver": format!("{:?}", cobs.driver), "server_driver": format!("{:?}", sobs.driver), "closes": format!("{closes:?}"), "follow_up": format!("{:?}", cobs.follow_up), "steps": ex.steps});
+    if end == RunEnd::StepBound {
+        return Err(Failure::fault("step bound"));
+    }
+    if let Some((task, p)) = ex.panics().first() {
+        return Err(Failure::new(format!("panic in task {task}: {p}"), case()));
+    }
+    let fail = |m: String| Err(Failure::new(m, case()));
+    if let Some(c) = closes.0.first().or(closes.1.first()) {
+        return fail(format!("a request cancelled by its own client closed the connection with {:#x}", c.code));
+    }
+    if cobs.driver.is_some() || sobs.driver.is_some() {
+        return fail(format!("a driver reported an error: client {:?}, server {:?}", cobs.driver, sobs.driver));
+    }
+    for (k, r) in reqs.iter().enumerate() {
+        for (who, o) in [("client", &cobs.reqs[k]), ("server", &sobs.reqs[k])] {
+            if let Some((call, ErrInfo::Conn(c))) = &o.first_error {
+                return fail(format!("request {k}: {call} on the {who} reported the connection-level error {c:?}"));
+            }
+        }
+        match r.fault {
+            Fault::None => {
+                let (c, s) = (&cobs.reqs[k], &sobs.reqs[k]);
+                if let Some(e) = c.first_error.as_ref().or(s.first_error.as_ref()) {
+                    return fail(format!("healthy request {k} failed: {e:?}"));
+                }
+                if s.body != body_of(k, r.body_len, false) || !s.recv_done {
+                    return fail(format!("healthy request {k}: the server received {} body bytes (complete: {}), the client sent {}", s.body.len(), s.recv_done, r.body_len));
+                }
+                if c.body != body_of(k, r.body_len, true) || !c.recv_done {
+                    return fail(format!("healthy request {k}: the client received {} body bytes (complete: {}), the server sent {}", c.body.len(), c.recv_done, r.body_len));
+                }
+                ctx.class("healthy_verified");
+            }
+            _ => {
+                let s = &sobs.reqs[k];
+                ctx.class(match &s.first_error {
+                    Some((call, _)) if call == "resolve_request" => "e2e_cancel_seen_before_the_request_was_resolved",
+                    Some(_) => "e2e_cancel_seen_by_the_handler",
+                    None if !s.accepted => "e2e_cancelled_request_never_accepted",
+                    None => "e2e_cancel_not_noticed",
+                });
+            }
+        }
+    }
+    match &cobs.follow_up {
+        Some(Ok(b)) if b == b"still alive" => ctx.class("follow_up_request_served"),
+        other => return fail(format!("after the cancelled requests the connection must still carry a new request; the follow-up request: {other:?}")),
+    }
+    ctx.class("e2e");
+    ctx.nontrivial(&(format!("{:?}", reqs.iter().map(req_json).collect::<Vec<_>>()), ex.steps, 7u8));
+    ctx.sample(|| case());
+    Ok(())
+}
+
+fn e2e_family(ctx: &mut Ctx, shard: usize, nshards: usize) -> Verdict {
+    let mut idx = 0usize;
+    for n in 2..=3usize {
+        for subset in 1..((1u32 << n) - 1) {
+            for (code, offset) in [(0x10cu64, 0usize), (0x10c, 1), (0x100, 0), (0x33, 2), (0x10c, 9)] {
+                for body in [0usize, 33, 3000] {
+                    idx += 1;
+                    if idx % nshards != shard {
+                        continue;
+                    }
+                    let reqs: Vec<Req> = (0..n).map(|k| Req { fault: if subset & (1 << k) != 0 { Fault::Reset { code, offset } } else { Fault::None }, body_len: body + k, pieces: 1 + k % 3 }).collect();
+                    for (si, style) in [Style::Eager, Style::Tiny, Style::Random, Style::Random, Style::Random].into_iter().enumerate() {
+                        let cells = prf_cells((idx * 5 + si) as u64 + 77_000, 200);
+                        let mut sched = Tape::new(if style == Style::Random { &cells } else { &[] });
+                        run_e2e(&reqs, style, &mut sched, ctx).map_err(|mut e| {
+                            e.direct = Some(json!({"e2e": true, "style": format!("{style:?}"), "cells": cells, "reqs": reqs.iter().map(req_json).collect::<Vec<_>>(), "decoded": e.case}));
+                            e
+                        })?;
+                    }
+                }
+            }
+        }
+    }
+    if shard == 0 {
+        ctx.subspace("both ends h3: every proper victim subset of 2..3 requests x 5 (code, cancel point) x 3 body sizes x 5 schedules", idx as u64 * 5);
+    }
+    Ok(())
+}
+
 fn gen_fault(t: &mut Tape, server: bool, msg_len_hint: usize) -> Fault {
     let codes = [0x10cu64, 0x100, 0x10b, 0, 0x101, 0x10d, 0x33, 0xdead_beef, (1 << 62) - 1];
     match t.pick(if server { 8 } else { 6 }) {
@@ -639,6 +782,7 @@ fn gen(t: &mut Tape) -> Scn {
 }
 
 fn exhaustive(ctx: &mut Ctx, shard: usize, nshards: usize) -> Verdict {
+    e2e_family(ctx, shard, nshards)?;
     // every (fault kind x victim subset) for 2..3 requests, both roles
     let faults_server = [Fault::Reset { code: 0x10c, offset: 0 }, Fault::Reset { code: 0x77, offset: 5 }, Fault::Reset { code: 0x10c, offset: 40 }, Fault::Reset { code: 0x10c, offset: 100_000 }, Fault::Stop { code: 0x10c, after_ops: 0 }, Fault::Stop { code: 0x99, after_ops: 2 }, Fault::Stop { code: 0x10c, after_ops: 9 }, Fault::Stop { code: 0x100, after_ops: 1 }, Fault::Reset { code: 0x100, offset: 30 }, Fault::Stop { code: 0x10b, after_ops: 0 }, Fault::Reset { code: 0x10b, offset: 30 }, Fault::Malformed, Fault::Oversized, Fault::BadTrailers(0), Fault::BadTrailers(1), Fault::BadTrailers(2), Fault::BadTrailers(3), Fault::FinBeforeHeaders, Fault::Abandoned];
     let mut idx = 0usize;
@@ -680,6 +824,19 @@ fn exhaustive(ctx: &mut Ctx, shard: usize, nshards: usize) -> Verdict {
 
 fn run_tape(tape: &[u16], ctx: &mut Ctx) -> Verdict {
     let mut t = Tape::new(tape);
+    if t.chance(1, 5) {
+        let n = 2 + t.pick(3);
+        let codes = [0x10cu64, 0x100, 0x10b, 0, 0x33, (1 << 62) - 1];
+        let mut reqs: Vec<Req> = (0..n).map(|_| Req { fault: if t.chance(1, 2) { Fault::Reset { code: codes[t.pick(codes.len())], offset: t.pick(4) } } else { Fault::None }, body_len: [0usize, 1, 33, 700, 3000][t.pick(5)], pieces: 1 + t.pick(4) }).collect();
+        reqs[0].fault = match reqs[0].fault {
+            Fault::None if reqs.iter().all(|r| r.fault == Fault::None) => Fault::Reset { code: 0x10c, offset: 0 },
+            f => f,
+        };
+        let style = [Style::Eager, Style::Tiny, Style::Random, Style::Random][t.pick(4)];
+        let pos = t.position().min(tape.len());
+        let mut sched = Tape::new(&tape[pos..]);
+        return run_e2e(&reqs, style, &mut sched, ctx);
+    }
     let s = gen(&mut t);
     let pos = t.position().min(tape.len());
     let (a, b) = tape[pos..].split_at((tape.len() - pos).min(40));
@@ -731,6 +888,10 @@ fn run_direct(d: &Value, ctx: &mut Ctx) -> Verdict {
         _ => Style::Random,
     };
     let cells: Vec<u16> = d["cells"].as_array().map(|a| a.iter().map(|x| x.as_u64().unwrap_or(0) as u16).collect()).unwrap_or_default();
+    if d["e2e"].as_bool() == Some(true) {
+        let mut sched = Tape::new(if style == Style::Random { &cells } else { &[] });
+        return run_e2e(&reqs, style, &mut sched, ctx);
+    }
     let (a, b) = cells.split_at(40.min(cells.len()));
     let mut merge = Tape::new(a);
     let mut sched = Tape::new(if style == Style::Random { b } else { &[] });
